@@ -6,7 +6,8 @@ import vf
 def setup():
     import gen_all
     t0 = time.time()
-    gen_all.regen_all()
+    for k, v in gen_all.regen_all().items():
+        print('gen', k, 'ok' if v is None else v)
     ok, log = vf.coq_make(["all"], timeout=3000)
     print(log[-3000:])
     print("setup: %s in %.0fs" % ("ok" if ok else "FAILED", time.time() - t0))
